@@ -2963,22 +2963,36 @@ impl<'de, 'e> de::Deserializer<'de> for YamlDeserializer<'de, 'e> {
         impl<'de> de::VariantAccess<'de> for TaggedVA<'de> {
             type Error = Error;
 
-            fn unit_variant(self) -> Result<(), Error> {
-                Ok(())
+            fn unit_variant(mut self) -> Result<(), Error> {
+                // `!Variant` for a unit variant: only an empty / null-like payload is acceptable.
+                match self.replay.next()? {
+                    None => Ok(()),
+                    Some(Ev::Scalar { value, style, .. }) if scalar_is_nullish(&value, &style) => {
+                        self.replay.expect_exhausted()
+                    }
+                    Some(other) => Err(Error::UnexpectedValueForUnitEnumVariant {
+                        location: other.location(),
+                    }),
+                }
             }
 
             fn newtype_variant_seed<T>(mut self, seed: T) -> Result<T::Value, Error>
             where
                 T: de::DeserializeSeed<'de>,
             {
-                seed.deserialize(YamlDeserializer::new(&mut *self.replay, self.cfg))
+                let v = seed.deserialize(YamlDeserializer::new(&mut *self.replay, self.cfg))?;
+                self.replay.expect_exhausted()?;
+                Ok(v)
             }
 
             fn tuple_variant<Vv>(mut self, len: usize, visitor: Vv) -> Result<Vv::Value, Error>
             where
                 Vv: Visitor<'de>,
             {
-                YamlDeserializer::new(&mut *self.replay, self.cfg).deserialize_tuple(len, visitor)
+                let v = YamlDeserializer::new(&mut *self.replay, self.cfg)
+                    .deserialize_tuple(len, visitor)?;
+                self.replay.expect_exhausted()?;
+                Ok(v)
             }
 
             fn struct_variant<Vv>(
@@ -2989,8 +3003,10 @@ impl<'de, 'e> de::Deserializer<'de> for YamlDeserializer<'de, 'e> {
             where
                 Vv: Visitor<'de>,
             {
-                YamlDeserializer::new(&mut *self.replay, self.cfg)
-                    .deserialize_struct("", fields, visitor)
+                let v = YamlDeserializer::new(&mut *self.replay, self.cfg)
+                    .deserialize_struct("", fields, visitor)?;
+                self.replay.expect_exhausted()?;
+                Ok(v)
             }
         }
 
